@@ -605,7 +605,7 @@ impl Prop for C11 {
         Mode::Children
     }
     fn n_cases(&self, tier: Tier) -> u64 {
-        tier.pick(20_000, 1_500_000)
+        tier.pick(60_000, 1_500_000)
     }
     fn time_cap_s(&self, tier: Tier) -> u64 {
         tier.pick(100, 1200)
